@@ -1136,14 +1136,16 @@ LOOP:
 						return l.errorf("unexpected %%}, expecting %s", end)
 					}
 				case '%':
-					switch end {
-					case tokenEndStatements:
-						if endLineAsSemicolon {
-							l.emit(tokenSemicolon, 0)
+					if len(l.src) > 2 && l.src[2] == '}' {
+						switch end {
+						case tokenEndStatements:
+							if endLineAsSemicolon {
+								l.emit(tokenSemicolon, 0)
+							}
+							return nil
+						case tokenRightBraces, tokenEndStatement:
+							return l.errorf("unexpected %%%%}, expecting %s", end)
 						}
-						return nil
-					case tokenRightBraces, tokenEndStatement:
-						return l.errorf("unexpected %%%%}, expecting %s", end)
 					}
 				case '=':
 					l.emit(tokenModuloAssignment, 2)
